@@ -275,7 +275,7 @@ fn assert_positioned(l: &EncryptionLayerInternal<Abs>, n: u64, p: u64) {
 // ------------------------------------------------------------------------------------------
 // H-ENC-MAPS: position maps vs FORMAT.md layout (C01, C11)
 // ------------------------------------------------------------------------------------------
-//@ props: C01 C11
+//@ props: C01 C06 C11
 //@ functions: layers::encrypt::no_tag_position_to_tag_position
 //@ bounds: every plaintext position p < 2^62
 //@ outside: positions >= 2^62 (overflow behaviour is checked under C08)
@@ -525,7 +525,7 @@ fn shrink_only_resize<T: Clone, A: core::alloc::Allocator>(v: &mut Vec<T, A>, ne
     v.truncate(new_len);
 }
 
-//@ props: C02 C03 C08 C13
+//@ props: C02 C03 C06 C08 C13
 //@ scaled: yes
 //@ functions: layers::encrypt::EncryptionLayerInternal::load_in_cache (real body); layers::encrypt::build_nonce; subtle ct_eq on the 16-byte tag
 //@ bounds: SCALED build (feature mla_verif: chunk = 4 bytes, tag = 16 bytes unchanged); inner length n <= 3*20+64, any start position q <= n (so every remaining length 0..=3 chunks incl. 1..15 bytes), any chunk counter, arbitrary previous cache
